@@ -4,6 +4,7 @@ mod c02;
 mod c03;
 mod c04;
 mod c05;
+mod c06;
 mod c07;
 mod c08;
 mod c13;
@@ -70,6 +71,7 @@ fn main() {
             "C03" => c03::replay(&v["replay"]),
             "C05" => c05::replay(&v["replay"]),
             "C07" => c07::replay(&v["replay"]),
+            "C06" => c06::replay(&v["replay"]),
             "C08" => c08::replay(&v["replay"]),
             "C13" => c13::replay(&v["replay"]),
             "C01" => c01::replay(c01::Mode::C01, &v["replay"]),
@@ -87,6 +89,7 @@ fn main() {
         "C03" => c03::run(&mut run),
         "C05" => c05::run(&mut run),
         "C07" => c07::run(&mut run),
+        "C06" => c06::run(&mut run),
         "C08" => c08::run(&mut run),
         "C13" => c13::run(&mut run),
         "C01" => c01::run(c01::Mode::C01, &mut run),
